@@ -196,7 +196,11 @@ func (p *LogPredicate) Validate() error {
 }
 
 func (p *LogPredicate) Match(log *types.Log) (bool, error) {
-	value := p.LogValueRef.GetValue(log)
+	value, ok := p.LogValueRef.getValue(log)
+	if !ok {
+		// The reference points outside of the log's data, so there is no value to match.
+		return false, nil
+	}
 	return p.ValuePredicate.Match(value)
 }
 
@@ -218,14 +222,23 @@ func (r *LogValueRef) IsTopic() bool {
 
 // GetValue retrieves a slice from the log based on the LogValueRef.
 //
-// In case the referenced slice exceeds the log's data length, the
+// In case a referenced single word exceeds the log's data length, the
 // result will be zero-padded on the right to the expected length.
+// In case a dynamic reference points outside of the log's data, the
+// result is nil.
 func (r *LogValueRef) GetValue(log *types.Log) []byte {
+	value, _ := r.getValue(log)
+	return value
+}
+
+// getValue is like GetValue, but additionally reports if the referenced
+// value is contained in the log.
+func (r *LogValueRef) getValue(log *types.Log) ([]byte, bool) {
 	if r.IsTopic() {
 		if uint64(len(log.Topics)) <= r.Offset {
-			return nil
+			return nil, true
 		}
-		return log.Topics[r.Offset].Bytes()
+		return log.Topics[r.Offset].Bytes(), true
 	}
 
 	if r.Dynamic {
@@ -245,14 +258,14 @@ func (r *LogValueRef) GetValue(log *types.Log) []byte {
 		copy(value, log.Data[startByte:availableEnd])
 	}
 
-	return value
+	return value, true
 }
 
 // getOffsetDataValue retrieves a "complex" data value from the log based on the LogValueRef.
 //
-// In case a slice of log data is referenced and the slice exceeds the log's data length, the
-// result will be zero-padded on the right to the expected length.
-func (r *LogValueRef) getOffsetDataValue(log *types.Log) []byte {
+// The offset, length and the referenced slice are all read from the log's data and are
+// therefore untrusted. If any of them lies outside of the log's data, no value is returned.
+func (r *LogValueRef) getOffsetDataValue(log *types.Log) ([]byte, bool) {
 	// abi encoded log data:
 	// W1: first argument value (simple) or offset_0 (complex)
 	// W2: second argument value (simple) or offset_1 (complex)
@@ -268,26 +281,28 @@ func (r *LogValueRef) getOffsetDataValue(log *types.Log) []byte {
 	//		- reading the `value` from `data[internal_offset+WORD:internal_offset+WORD+value_length]`
 	//
 	dataOffset := r.Offset - 4
+	dataLen := uint64(len(log.Data))
 
 	offsetStartByte := dataOffset * Word
-
+	if offsetStartByte > dataLen || dataLen-offsetStartByte < Word {
+		return nil, false
+	}
 	x := log.Data[offsetStartByte : offsetStartByte+Word]
 
 	lengthByteOffset := new(big.Int).SetBytes(x).Uint64()
+	if lengthByteOffset > dataLen || dataLen-lengthByteOffset < Word {
+		return nil, false
+	}
 	y := log.Data[lengthByteOffset : lengthByteOffset+Word]
 	length := new(big.Int).SetBytes(y).Uint64()
-	value := make([]byte, length)
 	startByte := lengthByteOffset + Word
-	endByte := startByte + length
-
-	if startByte < uint64(len(log.Data)) {
-		availableEnd := uint64(len(log.Data))
-		if endByte < availableEnd {
-			availableEnd = endByte
-		}
-		copy(value, log.Data[startByte:availableEnd])
+	if length > dataLen-startByte {
+		return nil, false
 	}
-	return value
+
+	value := make([]byte, length)
+	copy(value, log.Data[startByte:startByte+length])
+	return value, true
 }
 
 const (
